@@ -41,6 +41,12 @@ func reformatDescription(input string, maxWidth int) []string {
 
 		words := strings.Split(line, " ")
 		for _, word := range words {
+			if strings.TrimSpace(word) == "" {
+				// two spaces in a row, or white space the lexer would
+				// drop at the end of a line: not a word, and it must not
+				// count towards the width
+				continue
+			}
 			if pend == "" {
 				pend = lineStart(word)
 				continue
